@@ -61,6 +61,7 @@ pub fn main(args: &Args, seed: u64, mode: &str, mut sh: Shard) -> i32 {
             wd.mode.set(Mode { alloc_tracking: true, buffer_walk: true, policy: true, state_hash: false });
             wd.yield_every.set(1 + (tid as u32 % 3));
             wd.judge_idle_after_unwind.set(true);
+            crate::run::NO_BULK.with(|b| b.set(true));
             let mut tsh = Shard { cfg: RunCfg { mode: mode.clone(), props: props.clone(), verbose: false, leak_check: false }, rep: Report::new(), base_args: base_args.clone(), stop: false, mode_props_seen: 0 };
             let mut windows = 0u64;
             let mut idx = 0u64;
